@@ -163,7 +163,7 @@ CHECKS = {
         "profile": "chainsim", "pkg": "chain", "test": "TestC15", "level": "exploration", "env": {"VERIF_PROP": "C15"},
         "quick": {"workers": 8, "checks": 150}, "thorough": {"workers": 14, "checks": 6000},
         "timeout": {"quick": "25m", "thorough": "6h"}, "shrinktime": "90s",
-        "rule": "chainsim: per run 2-5 whole nodes and 4-9 validators (drawn BFT weights incl. stand-by generators, batch size, block time 2/5/10 s, thresholds, block cache size, event retention), a drawn schedule of up to 3 validator-set/threshold changes, 10-120 blocks of simulated time; drawn faults: gossip latency 1-3200 ms, loss 0/5/20 %, duplication 0/10 %, up to 3 partitions with heal, up to 3 crash+restart (graceful, kill, power loss) of nodes, clock skew up to 1.5 s, sync RPC timeouts/errors/truncation/bit flips. Oracle: every block a node's generator hands on is accepted by that node's own processing in the same step; all headers a validator key ever signed (from its generator DB, across chain switches, syncs and restarts) are pairwise non-contradicting by the reference predicate",
+        "rule": "chainsim: per run 2-5 whole nodes and 4-9 validators (drawn BFT weights incl. stand-by generators, batch size, block time 2/5/10 s, thresholds, block cache size, event retention), a drawn schedule of up to 3 validator-set/threshold changes, 10-120 blocks of simulated time; drawn faults: gossip latency 1-3200 ms, loss 0/5/20 %, duplication 0/10 %, up to 3 partitions with heal, up to 3 crash+restart (graceful, kill, power loss) of nodes, clock skew up to 1.5 s, sync RPC timeouts/errors/truncation/bit flips. A client workload sends transactions of the simulation module (2-6 accounts, consecutive nonces, nonce gaps, replacements/stale nonces, sizes 110-600 bytes, one distinct integer fee priority per transaction, and fillers sized so that a node's processable transactions add up to the payload limit exactly; payload limit drawn in 300-15000 bytes) through each node's pool gossip entry. Oracles: every block a node's generator hands on is accepted by that node's own processing in the same step (roots, aggregate commit, payload); its payload against the selection rule evaluated on the node's processable transactions and account nonces read right before generation: each transaction is the next of its sender, no candidate with a higher fee priority that verifies and fits is passed over, a sender whose candidate failed is not used again, payload <= limit, and the block does not end while the best remaining verifying candidate fits; all headers a validator key ever signed (from its generator DB, across chain switches, syncs and restarts) are pairwise non-contradicting by the reference predicate",
         "real": ["pkg/consensus (executer, verify, certificate, abi caller)", "pkg/consensus/liskbft, forkchoice, contradiction, validator, sync, certificate", "pkg/blockchain", "pkg/generator", "pkg/txpool", "pkg/framework ABI handler + pkg/statemachine", "pkg/db, diffdb, batchdb, trie/smt, trie/rmt, pkg/codec, pkg/crypto (Ed25519, BLS via blst)", "pebble on the simulated disk"],
         "stub": ["pkg/p2p (stub: simulated gossip flooding with validators, synchronous sync RPC with drawn faults)", "libp2p/gossipsub", "pkg/engine wiring, RPC server, router (the harness wires the same objects; the Start loops of executer/generator/txpool are replaced by simulator events calling their branches)", "application module: simmod", "ABI transport: in-process loopback through the labi codecs", "clock, randomness, request deadlines"],
         "distinct_measure": "FNV-64 of (drawn configuration, final tips / BFT heights / finalized heights of all nodes)",
